@@ -56,6 +56,23 @@ def jobs_default():
   return n
 
 
+MEM_MB = 6000     # per solver process: beyond this z3 answers `unknown` (max. memory exceeded); hard address-space cap at 2x
+
+
+def _limit_memory():
+  """A solver call that blows up in memory (observed: 34 GB in one quantifier-instantiation loop that ignores rlimit) must
+  not take the machine down: z3's own soft limit first, the address-space limit as the backstop."""
+  try:
+    z3.set_param('memory_max_size', MEM_MB)
+  except Exception:  # pylint: disable=broad-except
+    pass
+  try:
+    import resource
+    resource.setrlimit(resource.RLIMIT_AS, (2 * MEM_MB * 1024 * 1024, 2 * MEM_MB * 1024 * 1024))
+  except Exception:  # pylint: disable=broad-except
+    pass
+
+
 def _read_exact(fd, n):
   buf = b''
   while len(buf) < n:
@@ -78,6 +95,7 @@ class _Worker:
         os.close(cw)
         os.close(rr)
         signal.signal(signal.SIGINT, signal.SIG_DFL)
+        _limit_memory()
         while True:
           hdr = _read_exact(cr, 8)
           if hdr is None:
